@@ -228,7 +228,11 @@ func genMuxFault(seed uint64, n int, maxOps int, emit func(interface{})) {
 		}
 		W := countWrites(base)
 		for at := 0; at < W; at++ {
-			for _, mode := range []string{"once", "perm"} {
+			modes := []string{"once", "perm"}
+			if at%3 == s%3 { // every third position also with the failure reported together with the full count
+				modes = append(modes, "oncefull", "permfull")
+			}
+			for _, mode := range modes {
 				sc := base
 				sc.SID = fmt.Sprintf("mf-%d-%d-%d-%s", seed, s, at, mode)
 				sc.Fault = &muxFault{At: at, Mode: mode}
